@@ -54,6 +54,7 @@ class Registry:
         self.classes = {}        # class name -> {'fields': {name: default ast}, 'methods': {}, 'props': {}, 'target': str}
         self.externals = {}      # static path -> callable(ex, st, args, kwargs, node) -> list of (st, val) | Flow
         self.k5 = []             # descriptions of assumed external contracts
+        self.append_lemmas = []  # callables (new_list, old_list) -> facts, instantiated at every list append
         self.axioms = []         # callables returning the defining axioms of recursive spec functions
 
     def add(self, c):
